@@ -6,11 +6,11 @@ EXTENDS Roller, Json
 VARIABLES hist
 SetToSeq(S) == CHOOSE s \in [1..Cardinality(S) -> S] : \A i, j \in 1..Cardinality(S) : i # j => s[i] # s[j]
 MCInit == Init /\ hist = [configured |-> SetToSeq({x[1] : x \in configured}), preset |-> working[1], steps |-> << >>]
-MCBegin(acc, rm, tf, n) == BeginStep(acc, rm, tf, n) /\
-   hist' = [hist EXCEPT !.steps = Append(@, [accept |-> SetToSeq(acc), rmode |-> rm, tcpfail |-> tf, n |-> n])]
+MCBegin(acc, stl, rm, tf, n) == BeginStep(acc, stl, rm, tf, n) /\
+   hist' = [hist EXCEPT !.steps = Append(@, [accept |-> SetToSeq(acc), stall |-> SetToSeq(stl), rmode |-> rm, tcpfail |-> tf, n |-> n])]
 \* with a TCP failure the server setting is immaterial: only one representative is emitted
-MCNext == \/ \E acc \in SUBSET (IDs \ RandIDs) : \E rm \in RModes : \E tf \in BOOLEAN : \E n \in Callers :
-               (tf => (acc = {} /\ rm = "refuse")) /\ MCBegin(acc, rm, tf, n)
+MCNext == \/ \E acc \in SUBSET (IDs \ RandIDs) : \E stl \in Stalls : \E rm \in RModes : \E tf \in BOOLEAN : \E n \in Callers :
+               (tf => (acc = {} /\ stl = {} /\ rm = "refuse")) /\ MCBegin(acc, stl, rm, tf, n)
           \/ (\E c \in Callers : CallerStep(c)) /\ UNCHANGED hist
 Terminal == AllIdle /\ nsteps >= 1
 EmitScn == Terminal => PrintT(<<"SCN", ToJson(hist)>>)
